@@ -1197,8 +1197,8 @@ fire("c12-csemapper-direct-wrap", ["C12"], CSF,
      "                    getattr(IdentityMapper, expr.mapper_method)(self, expr))",
      "P/CSEMapper.get_cse/miss")
 fire("c12-csemapper-double-wrap", ["C12"], CSF,
-     "            return prim.wrap_in_cse(self.rec(expr.child), expr.prefix)",
-     "            return prim.CommonSubexpression(self.rec(expr.child), expr.prefix)",
+     "            result = prim.wrap_in_cse(self.rec(expr.child), expr.prefix)\n",
+     "            result = prim.CommonSubexpression(self.rec(expr.child), expr.prefix)\n",
      "O/CSEMapper/map_common_subexpression")
 fire("c12-csemapper-not-canonical", ["C12"], CSF,
      "            self.canonical_subexprs[key] = new_expr\n            return new_expr",
@@ -1630,8 +1630,8 @@ fire("c10-fabs-ungated", ["C10"], DIF,
      "        from pymbolic.functions import sign\n        return sign(*pars)",
      "P/table/fabs/gated")
 fire("c10-copysign-gate-too-wide", ["C10"], DIF,
-     "        if allowed_nonsmoothness == \"discontinuous\":\n            return 0",
-     "        if allowed_nonsmoothness in [\"continuous\", \"discontinuous\"]:\n            return 0",
+     "        if allowed_nonsmoothness == \"discontinuous\":\n            if i == 0:",
+     "        if allowed_nonsmoothness in [\"continuous\", \"discontinuous\"]:\n            if i == 0:",
      "P/table/copysign/gated")
 fire("c10-unknown-function-zero", ["C10"], DIF,
      "        raise RuntimeError(\"unrecognized function, cannot differentiate\")",
@@ -1966,26 +1966,30 @@ silent("c16-unify-many-comprehension", ["C16"], UNF,
        "    return [m for m in merged if m is not None]\n")
 
 fire("c16-replacement-multiset-counts-lost", ["C16"], TFF,
-     "                arg = multiset.Multiset({self.from_matchpy_expr(expr): count\n"
-     "                                         for expr, count in arg.items()})",
-     "                arg = multiset.Multiset({self.from_matchpy_expr(expr)\n"
-     "                                         for expr in arg})",
+     "        return multiset.Multiset({from_matchpy_expr(expr): count\n"
+     "                                  for expr, count in arg.items()})",
+     "        return multiset.Multiset({from_matchpy_expr(expr)\n"
+     "                                  for expr in arg})",
      "T/matchpy/replacement/multiset/binding-converted")
 silent("c16-replacement-multiset-by-iteration", ["C16"], TFF,
-       "                arg = multiset.Multiset({self.from_matchpy_expr(expr): count\n"
-       "                                         for expr, count in arg.items()})",
-       "                arg = multiset.Multiset(self.from_matchpy_expr(expr)\n"
-       "                                        for expr in arg)")
+       "        return multiset.Multiset({from_matchpy_expr(expr): count\n"
+       "                                  for expr, count in arg.items()})",
+       "        return multiset.Multiset(from_matchpy_expr(expr)\n"
+       "                                 for expr in arg)")
 fire("c16-replacement-tuple-reversed", ["C16"], TFF,
-     "                arg = tuple(self.from_matchpy_expr(el) for el in arg)",
-     "                arg = tuple(self.from_matchpy_expr(el) for el in reversed(arg))",
+     "        return tuple(from_matchpy_expr(el) for el in arg)",
+     "        return tuple(from_matchpy_expr(el) for el in reversed(arg))",
      "T/matchpy/replacement/tuple/binding-converted")
 fire("c16-replacement-expression-unconverted", ["C16"], TFF,
-     "            if isinstance(arg, MatchpyExpression):\n"
-     "                arg = self.from_matchpy_expr(arg)\n",
-     "            if isinstance(arg, MatchpyExpression):\n"
-     "                pass\n",
+     "    if isinstance(arg, MatchpyExpression):\n"
+     "        return from_matchpy_expr(arg)\n",
+     "    if isinstance(arg, MatchpyExpression):\n"
+     "        return arg\n",
      "T/matchpy/replacement/expression/binding-converted")
+silent_multi("c16-replacement-inline-conversion", ["C16"], TFF, [
+    ("            kwargs_to_f[kw] = from_matchpy_binding(self.from_matchpy_expr, arg)\n",
+     "            kwargs_to_f[kw] = from_matchpy_binding(\n"
+     "                    self.from_matchpy_expr, arg)\n")])
 
 
 # ---------------------------------------------------------------------------
@@ -2218,10 +2222,10 @@ silent("c05-cse-table-getattr-form", ["C05", "C10", "C12"], MI,
        "        ccd = self._cse_cache_dict\n")
 
 fire("c06-comma-absorbs-closed-tuple", ["C06", "C07"], PF,
-     "            if pstate.is_at_end() or pstate.next_tag() is _closepar:\n"
+     "                    _closepar, _closebracket):\n"
      "                if isinstance(left_exp, (tuple, list)) \\\n"
      "                        and not isinstance(left_exp, FinalizedContainer):\n",
-     "            if pstate.is_at_end() or pstate.next_tag() is _closepar:\n"
+     "                    _closepar, _closebracket):\n"
      "                if isinstance(left_exp, (tuple, list)):\n",
      "Tuple")
 fire("c06-comma-extends-closed-tuple", ["C06", "C07"], PF,
@@ -2581,3 +2585,146 @@ fire("c13-setstate-swaps-state", ["C13", "C17"], CO,
      "    def __setstate__(self, state):\n"
      "        self._compile(state[1], state[0])\n",
      "pickle-state")
+
+fire("c04-cse-zero-test-before-unchanged-test", ["C04", "C08"], MI,
+     "        if result is expr.child:\n            return expr\n"
+     "        if is_zero(result):\n            return 0\n",
+     "        if is_zero(result):\n            return 0\n"
+     "        if result is expr.child:\n            return expr\n",
+     "return-zero")
+silent("c04-cse-zero-test-in-else", ["C04", "C08"], MI,
+       "        if result is expr.child:\n            return expr\n"
+       "        if is_zero(result):\n            return 0\n",
+       "        if result is not expr.child and is_zero(result):\n            return 0\n"
+       "        if result is expr.child:\n            return expr\n")
+
+DIF = "pymbolic/mapper/differentiator.py"
+fire("c10-copysign-ignores-argument-index", ["C10"], DIF,
+     "            if i == 0:\n"
+     "                # copysign(u, v) is fabs(u)*sign(v)\n"
+     "                from pymbolic.functions import sign\n"
+     "                return sign(pars[0])*sign(pars[1])\n"
+     "            return 0\n",
+     "            return 0\n",
+     "E/table/copysign")
+fire("c10-copysign-indices-swapped", ["C10"], DIF,
+     "            if i == 0:\n                # copysign(u, v) is fabs(u)*sign(v)\n",
+     "            if i == 1:\n                # copysign(u, v) is fabs(u)*sign(v)\n",
+     "E/table/copysign")
+silent("c10-copysign-index-test-negated", ["C10"], DIF,
+       "            if i == 0:\n"
+       "                # copysign(u, v) is fabs(u)*sign(v)\n"
+       "                from pymbolic.functions import sign\n"
+       "                return sign(pars[0])*sign(pars[1])\n"
+       "            return 0\n",
+       "            if i != 0:\n"
+       "                return 0\n"
+       "            from pymbolic.functions import sign\n"
+       "            return sign(pars[1])*sign(pars[0])\n")
+
+fire("c07-true-without-word-boundary", ["C07"], PF,
+     "            (_true, pytools.lex.RE(r\"True\\b\")),\n",
+     "            (_true, pytools.lex.RE(r\"True\")),\n",
+     "T/lexer/word-boundary:True")
+fire("c07-trailing-comma-only-before-paren", ["C07"], PF,
+     "            if pstate.is_at_end() or pstate.next_tag() in (\n"
+     "                    _closepar, _closebracket):\n",
+     "            if pstate.is_at_end() or pstate.next_tag() is _closepar:\n",
+     "T/pygrammar/o[a,]")
+
+fire("c12-csemapper-plain-wrapper-not-registered", ["C12"], CSF,
+     "            result = prim.wrap_in_cse(self.rec(expr.child), expr.prefix)\n"
+     "            self.canonical_subexprs[key] = result\n"
+     "            return result\n",
+     "            result = prim.wrap_in_cse(self.rec(expr.child), expr.prefix)\n"
+     "            return result\n",
+     "shares-with-bare-occurrences")
+fire("c12-csemapper-plain-wrapper-keyed-by-wrapper", ["C12"], CSF,
+     "            key = self.get_key(expr.child)\n",
+     "            key = self.get_key(expr)\n",
+     "shares-with-bare-occurrences")
+silent("c12-csemapper-plain-wrapper-get-form", ["C12"], CSF,
+       "            try:\n"
+       "                return self.canonical_subexprs[key]\n"
+       "            except KeyError:\n"
+       "                pass\n\n"
+       "            result = prim.wrap_in_cse(self.rec(expr.child), expr.prefix)\n"
+       "            self.canonical_subexprs[key] = result\n"
+       "            return result\n",
+       "            if key in self.canonical_subexprs:\n"
+       "                return self.canonical_subexprs[key]\n\n"
+       "            self.canonical_subexprs[key] = prim.wrap_in_cse(\n"
+       "                    self.rec(expr.child), expr.prefix)\n"
+       "            return self.canonical_subexprs[key]\n")
+
+fire("c17-polynomial-init-arg-names-reordered", ["C17"], POLY,
+     "    init_arg_names = (\"Base\", \"Data\", \"Unit\", \"VarLess\")\n",
+     "    init_arg_names = (\"Base\", \"Unit\", \"Data\", \"VarLess\")\n",
+     "S/legacy-state/Polynomial/init_arg_names")
+fire("c17-rational-init-arg-names-missing", ["C17"], RAT,
+     "    init_arg_names = (\"Numerator\", \"Denominator\")\n",
+     "",
+     "S/legacy-state/Rational/init_arg_names")
+
+fire("c01-polynomial-eq-isinstance", ["C01"], POLY,
+     "        return (type(other) is type(self)\n",
+     "        return (isinstance(other, Polynomial)\n",
+     "S/legacy/Polynomial/eq-requires-hashed-class")
+fire("c01-polynomial-hash-uses-uncompared-attribute", ["C01"], POLY,
+     "        return hash((type(self).__name__, self.Base, self.Data))\n",
+     "        return hash((type(self).__name__, self.Base, self.Data, self.Unit))\n",
+     "S/legacy/Polynomial/eq-compares-hashed-attributes")
+silent("c01-polynomial-eq-class-attribute-form", ["C01"], POLY,
+       "        return (type(other) is type(self)\n",
+       "        return (type(self) is type(other)\n")
+
+fire("c03-add-refuses-bool", ["C03"], PR,
+     "    def __add__(self, other: object) -> ArithmeticExpressionT:\n"
+     "        if not is_valid_operand(other):\n",
+     "    def __add__(self, other: object) -> ArithmeticExpressionT:\n"
+     "        if not is_arithmetic_expression(other):\n",
+     "S/Expression.__add__/admits-boolean-operands")
+fire("c03-rmul-asserts-number", ["C03"], PR,
+     "    def __rmul__(self, other: object) -> ArithmeticExpressionT:\n"
+     "        if not is_constant(other):\n"
+     "            return NotImplemented\n",
+     "    def __rmul__(self, other: object) -> ArithmeticExpressionT:\n"
+     "        if not is_number(other):\n"
+     "            return NotImplemented\n",
+     "S/Expression.__rmul__/admits-boolean-operands")
+
+CCF = "pymbolic/mapper/c_code.py"
+fire("c14-int-quotient-integer-division", ["C14"], CCF,
+     "                        repr(float(expr.numerator)),\n",
+     "                        repr(expr.numerator),\n",
+     "T/c-types/true-division-of-integer-constants")
+
+MPI = "pymbolic/interop/matchpy/__init__.py"
+MPT = "pymbolic/interop/matchpy/tofrom.py"
+fire("c16-tupleop-generated-init", ["C16"], MPI,
+     "    def __init__(self, *operands, variable_name=None):\n"
+     "        # matchpy rebuilds operations as type(op)(*new_operands,\n"
+     "        # variable_name=...), so the operands arrive unpacked.\n"
+     "        object.__setattr__(self, \"_operands\", tuple(operands))\n"
+     "        object.__setattr__(self, \"variable_name\", variable_name)\n\n",
+     "",
+     "S/matchpy/TupleOp/rebuildable-from-unpacked-operands")
+fire("c16-tupleop-built-from-one-tuple", ["C16"], MPT,
+     "                      m.TupleOp(*[self.rec(p)\n"
+     "                                  for p in expr.parameters]))",
+     "                      m.TupleOp(tuple(self.rec(p)\n"
+     "                                      for p in expr.parameters)))",
+     "S/matchpy/tuple-op/construction-agrees-with-init")
+
+fire("c16-match-converts-bindings-directly", ["C16"], MPI,
+     "        yield {name: from_matchpy_binding(from_matchpy_expr, expr)\n"
+     "               for name, expr in subst.items()}\n",
+     "        yield {name: from_matchpy_expr(expr)\n"
+     "               for name, expr in subst.items()}\n",
+     "S/matchpy/match/bindings-converted-like-replacement")
+fire("c16-binding-converter-drops-multiset-counts", ["C16"], MPT,
+     "        return multiset.Multiset({from_matchpy_expr(expr): count\n"
+     "                                  for expr, count in arg.items()})\n",
+     "        return multiset.Multiset({from_matchpy_expr(expr): 1\n"
+     "                                  for expr, count in arg.items()})\n",
+     "T/matchpy/replacement/multiset/binding-converted")
